@@ -204,7 +204,24 @@ func (c *Ctx) callStatic(st *State, fr *Frame, ins ssa.Instruction, f *ssa.Funct
 	}
 	full = typeArgRe.ReplaceAllString(full, "")
 	if h, ok := intrinsics[full]; ok {
-		return h(c, st, fr, ins, f, res, args)
+		conts := h(c, st, fr, ins, f, res, args)
+		// make the result of a modelled library call visible to callres()
+		if cins, ok := res.(ssa.Instruction); ok && res != nil && fr.depth == 0 {
+			if si, ok := c.sitesOf(cins.Parent())[cins]; ok && strings.HasPrefix(si.class, "call ") {
+				for _, ct := range conts {
+					if v, ok := ct.fr.regs[res]; ok {
+						var vals []Value
+						if tup, isT := v.(Tuple); isT {
+							vals = []Value(tup)
+						} else {
+							vals = []Value{v}
+						}
+						ct.st.callResults[fmt.Sprintf("%s#%d", strings.TrimPrefix(si.class, "call "), si.ord)] = vals
+					}
+				}
+			}
+		}
+		return conts
 	}
 	if c.cur != nil && c.cur.isInit {
 		// while executing package initialisers: initialisers of other module packages are
